@@ -881,6 +881,15 @@ func (e *Env) evalCall(n *ast.CallExpr) Val {
 		n2 := *e
 		n2.st = e.loopPre
 		return n2.eval(n.Args[0])
+	case "unboxRef":
+		// unboxRef(x, "T"): the reference (pointer, map, chan) boxed in interface value x, for dynamic type T
+		lit, ok := n.Args[1].(*ast.BasicLit)
+		if !ok {
+			e.fail("unboxRef(x, \"type\")")
+		}
+		name, _ := strconv.Unquote(lit.Value)
+		tag := e.x.prog.typeTagByName(name)
+		return Val{C: []*T{App(fmt.Sprintf("ipay_%d_0", tag), SInt, arg(0).T())}}
 	case "ifaceStr":
 		// ifaceStr(x): the string boxed in interface value x
 		tag := e.x.prog.typeTag(types.Typ[types.String])
